@@ -226,7 +226,7 @@ def r10_3(ctx):
                     continue
                 n += 1
                 vg = [x for x in p.decisions if x[0] <= d[0] and x[2][0] == 'bin' and x[2][1] in ('Ge', 'Gt', 'Lt', 'Le') and
-                      any((y[0] == 'field' and y[2] == 'version') or (y[0] == 'param' and y[1] == 'version') for y in walk(x[2]))]
+                      any((y[0] == 'field' and y[2] == 'version') or (y[0] == 'param' and (y[1] == 'version' or g.local_ty(y[2]) == 'u64')) for y in walk(x[2]))]
                 good = any((x[2][1] == 'Ge' and x[2][3] == ('const', 2) and x[3] == 1) or (x[2][1] == 'Gt' and x[2][3] == ('const', 1) and x[3] == 1) or
                            (x[2][1] == 'Lt' and x[2][3] == ('const', 2) and x[3] == 0) for x in vg)
                 ctx.check(R, good, 'guard', 'a reader takes the "node has an index table" branch (ntrans > threshold) without requiring version >= 2: version-1 files have no index', fn=g, at=g.span)
